@@ -149,3 +149,30 @@ def Code.run (store : Nat → Nat) (cond : Nat → Bool) (count : Nat → Nat) :
   | .loop c b, T => iter (b.run store cond count) (count c) T
 
 end RotoV.Tarjan
+
+namespace RotoV.Tarjan
+
+/-- how many read sites of constant `k` a body has -/
+def Body.sites (k : Nat) : Body → Nat
+  | .lit _ => 0
+  | .read k' => if k' = k then 1 else 0
+  | .add a b => a.sites k + b.sites k
+  | .ite _ t e => t.sites k + e.sites k
+  | .loop _ b => b.sites k
+
+/-- does the site read constant `k` from the store where it stands -/
+def Site.reads (k : Nat) : Site → Bool
+  | .direct k' => k' == k
+  | .viaTemp _ k' => k' == k
+  | .reuse _ => false
+
+/-- how many store reads of constant `k` (`Value::Constant(k)` operands, each of
+which becomes one `ConstantAddress { name: k }`) the lowered body has -/
+def Code.storeReads (k : Nat) : Code → Nat
+  | .lit _ => 0
+  | .site s => if s.reads k then 1 else 0
+  | .add a b => a.storeReads k + b.storeReads k
+  | .ite _ t e => t.storeReads k + e.storeReads k
+  | .loop _ b => b.storeReads k
+
+end RotoV.Tarjan
